@@ -164,9 +164,10 @@ fn rule_for(model: Option<&Ev>, obs: Option<&Ev>, after_catch: bool, multi: bool
 fn finish_matches(model: &FinishRes, obs: &FinishRes) -> bool {
     match (model, obs) {
         (FinishRes::Ok(a), FinishRes::Ok(b)) => a == b,
-        (FinishRes::Err { len: ml, leaves: mv, top: mt }, FinishRes::Err { len: ol, leaves: ov, top: ot }) => {
-            ml == ol && mv == ov && (mt.is_none() || mt == ot)
-        }
+        // The error value is its leaves (count, order, text with location paths). Whether recorded
+        // bundles survive as nested bundles inside the result is not compared (`top` is kept in the
+        // trace for the reader); `into_inner` is where the entries themselves are observable (R5).
+        (FinishRes::Err { len: ml, leaves: mv, .. }, FinishRes::Err { len: ol, leaves: ov, .. }) => ml == ol && mv == ov,
         _ => false,
     }
 }
